@@ -426,7 +426,10 @@ fn gate_expect(version: u64, len: usize, well_formed: bool) -> Option<&'static s
         return Some("Format");
     }
     if bad_version {
-        return if len < 36 { None } else { Some("Version") };
+        // shorter than the smallest well-formed file of ANY version: either
+        // error is accepted; from 32 bytes on only the version clause applies
+        // (an unsupported version has no "smallest well-formed file")
+        return if len < 32 { None } else { Some("Version") };
     }
     let min = if version <= 2 { 32 } else { 36 };
     if len < min {
